@@ -45,12 +45,16 @@ theorem roundtrip_listed (lw : Nat) (fs : FmtList) (items : ValList) (pre post b
   · intro h; simp [endsInRaw] at h
   · simp [wf, endsInRaw, hwf]
 
-/-- every shipped class (generated table): instance of the list theorem on the class's actual format list -/
-theorem shipped_roundtrip : ∀ p ∈ payloads, ∀ (vs : ValList) (pre post b : Bytes),
-    wfList p.fmts vs = true → packList p.fmts vs = .ok b → (endsInRawL p.fmts = true → post = []) →
-    unpackListAt p.fmts (pre ++ b ++ post) pre.length = .ok (vs, pre.length + b.length) := by
-  intro p _ vs pre post b h1 h2 h3
-  exact roundtrip_list_at_offset p.fmts vs pre post b h1 h2 h3
+/-- VariablePayload classes (interpreted and `vp_compile`d, no hooks), ATTRIBUTE level, for every format list: the
+    attribute values (in `names` order, 8 per `bits`) that `to_pack_list` groups into the pack list come back, after the
+    wire round trip at any offset, from the splice `from_unpack_list` performs.  The tie to a shipped class is the
+    translator (`p.fmts`, `p.names`) plus `all_payloads_wf` (`names.length = nameCount fmts`, no hooks) — a statement of this
+    theorem "for p ∈ payloads" would not use the membership. -/
+theorem variable_payload_attr_roundtrip (fs : FmtList) (attrs pl : List Val) (pre post b : Bytes)
+    (hpl : Old.vpPack fs attrs = some pl) (hwf : wfList fs (ValList.ofList pl) = true)
+    (hp : packList fs (ValList.ofList pl) = .ok b) (hr : endsInRawL fs = true → post = []) :
+    ∃ ul, unpackListAt fs (pre ++ b ++ post) pre.length = .ok (ul, pre.length + b.length) ∧ flatten fs ul = attrs :=
+  ⟨ValList.ofList pl, roundtrip_list_at_offset fs _ pre post b hwf hp hr, flatten_vpPack fs attrs pl hpl⟩
 
 /-- `unpack_serializable_list(…, consume_all=True)` accepts exactly-consumed input and returns the same messages -/
 theorem roundtrip_consume_all (fs : FmtList) (vs : ValList) (pre b : Bytes)
@@ -99,6 +103,107 @@ theorem fields_in_order (f : Fmt) (fs : FmtList) (v : Val) (vs : ValList) (b : B
   obtain ⟨y, hy, h2⟩ := bind_ok h1
   cases h2
   exact ⟨x, y, hx, hy, rfl⟩
+
+/-- signed integers: two's complement in exactly `w` bytes -/
+theorem sint_layout (w : Nat) (i : Int) (b : Bytes) (h : pack (.struct [.sint w]) (.atom (.int i)) = .ok b) :
+    b = beEnc w (sintEnc w i) ∧ sintInRange w i = true := by
+  simp only [pack, packFields, packField] at h
+  obtain ⟨x, hx, h1⟩ := bind_ok h
+  cases h1
+  split at hx
+  · rename_i hr; cases hx; simp [hr]
+  · cases hx
+
+/-- `bits`: the FIRST member is the most significant bit (0x80), the eighth the least significant (0x01) -/
+theorem bits_layout (b7 b6 b5 b4 b3 b2 b1 b0 : Atom) :
+    pack .bits (.tuple [b7, b6, b5, b4, b3, b2, b1, b0]) = .ok [UInt8.ofNat (
+      (if truthy b7 then 128 else 0) + (if truthy b6 then 64 else 0) + (if truthy b5 then 32 else 0) +
+      (if truthy b4 then 16 else 0) + (if truthy b3 then 8 else 0) + (if truthy b2 then 4 else 0) +
+      (if truthy b1 then 2 else 0) + (if truthy b0 then 1 else 0))] := by
+  simp [pack, bitsByte]
+
+/-- `ipv4`: 4 address bytes then the port, big-endian -/
+theorem ipv4_layout (ip : Bytes) (port : Nat) (b : Bytes) (hl : ip.length = 4)
+    (h : pack .ipv4 (.addr (.v4 ip port)) = .ok b) : b = ip ++ beEnc 2 port ∧ port < 65536 := by
+  simp only [pack] at h
+  obtain ⟨pt, hpt, h1⟩ := bind_ok h
+  cases h1
+  obtain ⟨rfl, hn⟩ := packUint_ok hpt
+  have : fixedPad 4 ip = ip := by rw [← hl]; exact fixedPad_self ip
+  exact ⟨by rw [this], by simpa using hn⟩
+
+/-- `address` / `ip_address`: type byte 1 (IPv4, 4 bytes) / 3 (IPv6, 16 bytes) / 2 (host: 2-byte length + name), port last -/
+theorem address_layout (ipOnly : Bool) (a : Addr) (b : Bytes) (hw : wfAddr a = true)
+    (h : pack (.address ipOnly) (.addr a) = .ok b) :
+    match a with
+    | .v4 ip port => b = [1] ++ ip ++ beEnc 2 port
+    | .v6 ip port => b = [3] ++ ip ++ beEnc 2 port
+    | .domain host port => b = [2] ++ beEnc 2 host.length ++ host ++ beEnc 2 port ∧ ipOnly = false := by
+  simp only [pack] at h
+  cases a with
+  | v4 ip port =>
+    simp only [packAddress] at h
+    obtain ⟨pt, hpt, h1⟩ := bind_ok h
+    cases h1
+    obtain ⟨rfl, _⟩ := packUint_ok hpt
+    simp only [wfAddr, beq_iff_eq] at hw
+    have : fixedPad 4 ip = ip := by rw [← hw]; exact fixedPad_self ip
+    simp [this]
+  | v6 ip port =>
+    simp only [packAddress] at h
+    obtain ⟨pt, hpt, h1⟩ := bind_ok h
+    cases h1
+    obtain ⟨rfl, _⟩ := packUint_ok hpt
+    simp only [wfAddr, beq_iff_eq] at hw
+    have : fixedPad 16 ip = ip := by rw [← hw]; exact fixedPad_self ip
+    simp [this]
+  | domain host port =>
+    simp only [packAddress] at h
+    split at h
+    · cases h
+    · rename_i hio
+      obtain ⟨l, hl, h1⟩ := bind_ok h
+      obtain ⟨pt, hpt, h2⟩ := bind_ok h1
+      cases h2
+      obtain ⟨rfl, _⟩ := packUint_ok hl
+      obtain ⟨rfl, _⟩ := packUint_ok hpt
+      exact ⟨rfl, by simpa using hio⟩
+
+/-- lists: big-endian element COUNT of the stated width, then the elements in order -/
+theorem listOf_layout (lw : Nat) (f : Fmt) (vs : ValList) (b : Bytes) (h : pack (.listOf lw f) (.list vs) = .ok b) :
+    ∃ body, packMany f vs = .ok body ∧ b = beEnc lw vs.length ++ body ∧ vs.length < 256 ^ lw := by
+  simp only [pack] at h
+  obtain ⟨l, hl, h1⟩ := bind_ok h
+  obtain ⟨body, hb, h2⟩ := bind_ok h1
+  cases h2
+  obtain ⟨rfl, hn⟩ := packUint_ok hl
+  exact ⟨body, hb, rfl, hn⟩
+
+/-- arrays: big-endian element count, then the items (each big-endian, see `packElem`) -/
+theorem array_layout (lw : Nat) (k : AKind) (as : List Atom) (b : Bytes) (h : pack (.array lw k) (.arr as) = .ok b) :
+    ∃ body, packElems k as = .ok body ∧ b = beEnc lw as.length ++ body ∧ as.length < 256 ^ lw := by
+  simp only [pack] at h
+  obtain ⟨l, hl, h1⟩ := bind_ok h
+  obtain ⟨body, hb, h2⟩ := bind_ok h1
+  cases h2
+  obtain ⟨rfl, hn⟩ := packUint_ok hl
+  exact ⟨body, hb, rfl, hn⟩
+
+/-- flags: the bitwise OR of the listed values as one big-endian integer -/
+theorem flags_layout (w : Nat) (l : List Nat) (b : Bytes) (h : pack (.flags w) (.nats l) = .ok b) :
+    b = beEnc w (orAll l) ∧ orAll l < 256 ^ w := by
+  simp only [pack] at h
+  exact packUint_ok h
+
+/-- DHT node: `ip_address` encoding of the address, then the key as `varlenH` -/
+theorem node_layout (a : Addr) (key b : Bytes) (h : pack .node (.node a key) = .ok b) :
+    ∃ x, packAddress true a = .ok x ∧ b = x ++ (beEnc 2 key.length ++ key) ∧ key.length < 65536 := by
+  simp only [pack] at h
+  obtain ⟨x, hx, h1⟩ := bind_ok h
+  obtain ⟨l, hl, h2⟩ := bind_ok h1
+  cases h2
+  obtain ⟨rfl, hn⟩ := packUint_ok hl
+  exact ⟨x, hx, rfl, by simpa using hn⟩
 
 /-- every documented data type is registered with exactly the documented layout
     (field order, big-endian widths, length-prefix width and unit) — over the GENERATED registry -/
@@ -176,9 +281,11 @@ theorem discovery_introduction_request_fields_roundtrip (d l w extra : Val) (key
   rcases ha with rfl | rfl <;> rcases hc with rfl | rfl | rfl <;>
     exact ⟨_, rfl, by simp [Old.discIntroReqUnpack, Old.asBit, truthy, hm, Old.n]; decide⟩
 
-/-- IntroductionResponsePayload: all three flags, the connection type and both introduction addresses -/
+/-- IntroductionResponsePayload: all three flags (passed through as given), the connection type and both introduction
+    addresses; what the theorem carries is the bit positions, the three connection strings and `identifier % 65536` —
+    addresses and extra bytes are opaque values here, their wire round trip is `roundtrip_list_at_offset` -/
 theorem introduction_response_fields_roundtrip (d l w li wi extra : Val) (sns isns plr ident : Nat) (ct : Bytes)
-    (_h1 : bitVal sns) (_h2 : bitVal isns) (_h3 : bitVal plr) (hc : legalConn ct) (hi : ident < 65536) :
+    (hc : legalConn ct) (hi : ident < 65536) :
     ∃ pl, Old.introRespPack [d, l, w, li, wi, .str ct, .atom (.nat ident), extra, .atom (.nat sns), .atom (.nat isns),
         .atom (.nat plr)] = some pl ∧
       Old.introRespUnpack pl = some [d, l, w, li, wi, .str ct, .atom (.nat ident), extra, .atom (.nat sns),
@@ -246,30 +353,61 @@ theorem similarity_response_fields_roundtrip (ident : Nat) (prefs tb : ValList) 
         exact chunksAux_joinBytes prefs.toList pb pb.length hj hp (Nat.le_refl _)
       simp [Old.simRespUnpack, e1, Old.bytesList, e2, ofList_toList, Nat.mod_eq_of_lt hi]
 
-/-! ## dataclass-defined payloads: the conversion state does not depend on the instantiation history -/
+/-! ## dataclass-defined payloads: class-level conversion state (model `Dataclass.lean`, tied to the code by driver op `dc`)
 
-/-- after ANY sequence of instantiations (of this class, its bases, its subclasses, unrelated classes, in any order) a
-    class that has been instantiated at least once carries ITS OWN full field list (inherited + own), not a base's -/
-theorem dataclass_names_history_independent (all : Nat → List String) (parent : Nat → Option Nat)
-    (h : List Nat) (c fuel : Nat) (hc : c ∈ h) :
-    Dc.lookupNames parent (Dc.run all h) (fuel + 1) c = all c := by
-  have := Dc.foldl_keeps all h Dc.init c (Or.inl hc)
-  simp [Dc.lookupNames, Dc.run, this]
+  FULL statement wanted by the property (every dataclass message type decodes to itself with all its fields, whatever
+  happened before in the process):
+      ∀ ops c, recvResult all parent (run all parent fuel ops) fuel c = some c ∧ lookupNames … c = all c
+  This is FALSE for the code as it is (known finding `DataClassPayload:decode-before-first-instance`): see the two witnesses
+  below.  Proved part: the statement under the explicit hypothesis that `c` has been INSTANTIATED at least once. -/
 
-/-- `payload_dataclass.type_map` (evaluated on the live module) is the frozen one and only names registered formats -/
+/-- partial: after any sequence of instantiations and receptions (of this class, its bases, its subclasses, unrelated classes,
+    in any order) a class that has been instantiated at least once carries its own full field list and decodes to itself -/
+theorem dataclass_converted_after_first_instance_partial (all : Nat → List String) (parent : Nat → Option Nat)
+    (ops : List Dc.Op) (c fuel : Nat) (hc : Dc.Op.inst c ∈ ops) :
+    Dc.lookupNames parent (Dc.run all parent (fuel + 1) ops) (fuel + 1) c = all c ∧
+    Dc.recvResult all parent (Dc.run all parent (fuel + 1) ops) (fuel + 1) c = some c := by
+  have h := Dc.foldl_keeps all parent (fuel + 1) ops Dc.init c (Or.inl hc)
+  have h' : Dc.run all parent (fuel + 1) ops c = some (all c) := h
+  simp [Dc.lookupNames, Dc.recvResult, Dc.owner, h']
+
+/-- negation witness 1: a message type that was only ever RECEIVED: decoding raises (class 0 with two fields, no history) -/
+theorem dataclass_receive_first_raises_witness :
+    Dc.recvResult (fun _ => ["x", "y"]) (fun _ => none) (Dc.run (fun _ => ["x", "y"]) (fun _ => none) 3 []) 3 0 = none := by
+  decide
+
+/-- negation witness 2: base class 0 instantiated, derived class 1 (one more field) only received: it decodes as an
+    instance of the BASE class and reads only the base's fields -/
+theorem dataclass_receive_first_decodes_as_base_witness :
+    let all : Nat → List String := fun c => if c = 0 then ["x", "y"] else ["x", "y", "z"]
+    let parent : Nat → Option Nat := fun c => if c = 1 then some 0 else none
+    Dc.recvResult all parent (Dc.run all parent 3 [.inst 0]) 3 1 = some 0 ∧
+    Dc.lookupNames parent (Dc.run all parent 3 [.inst 0]) 3 1 = ["x", "y"] := by
+  decide
+
+/-- FULL statement wanted: `∀ k, Dc.decodedContainer k = k` (a sequence field comes back in its annotated container).
+    FALSE for the code (known finding `DataClassPayload:tuple-set-field-decodes-as-list`): witness -/
+theorem dataclass_container_witness :
+    Dc.decodedContainer .tuple ≠ .tuple ∧ Dc.decodedContainer .set ≠ .set := by decide
+
+/-- partial: fields annotated `list[...]` keep their container type -/
+theorem dataclass_container_roundtrip_partial : Dc.decodedContainer .list = .list := rfl
+
+/-- `payload_dataclass.type_map` (evaluated on the live module for the 12 probed annotations bool, int, float, bytes, str,
+    list[bool|int|float], tuple[int|bool|float], set[int]) is the frozen one and only names registered formats -/
 theorem dataclass_type_map_frozen : typeMap = frozenTypeMap ∧ ∀ e ∈ typeMap, (lookup packers e.2).isSome = true := by
   decide
+
+/-- hypothesis of the partial theorem is satisfiable: derived class received first (lost), then instantiated, then received -/
+example : Dc.recvResult (fun c => if c = 0 then ["x"] else ["x", "z"]) (fun c => if c = 1 then some 0 else none)
+      (Dc.run (fun c => if c = 0 then ["x"] else ["x", "z"]) (fun c => if c = 1 then some 0 else none) 3
+        [.inst 0, .recv 1, .inst 1]) 3 1 = some 1 := by decide
 
 /-- the model distinguishes the "convert only while `cls.names` is empty" policy: base first, then the derived class —
     the derived class keeps the base's single field -/
 example : Dc.lookupNames (fun c => if c = 1 then some 0 else none)
       ([0, 1].foldl (Dc.instantiateLazy (fun c => if c = 0 then ["identifier"] else ["identifier", "blob", "flag"])
         (fun c => if c = 1 then some 0 else none) 3) Dc.init) 3 1 = ["identifier"] := by decide
-
-/-- … while the modelled (actual) policy gives the derived class all three fields in that history -/
-example : Dc.lookupNames (fun c => if c = 1 then some 0 else none)
-      (Dc.run (fun c => if c = 0 then ["identifier"] else ["identifier", "blob", "flag"]) [0, 1]) 3 1
-    = ["identifier", "blob", "flag"] := by decide
 
 /-- two overlap records with counters 1 and 2^32-1 -/
 example : Old.joinTb [.tuple [.bytes (List.replicate 20 0xAA), .nat 1], .tuple [.bytes (List.replicate 20 0xBB), .nat 4294967295]]
@@ -300,6 +438,33 @@ example : (findPayload "ipv8.messaging.anonymization.payload.PeersResponsePayloa
           (.cons (.atom (.bytes [])) (.cons (.atom (.nat 2)) .nil))))) .nil)) .nil)))
       (wfList p.fmts vs, (packList p.fmts vs).toOption.map List.length))
     = some (true, some 54) := by decide
+
+/-- `introduction_request_wire_roundtrip`: its hypotheses hold for a concrete request (advice set, public, 2 extra bytes) -/
+example : Old.introReqPack [.addr (.v4 [1, 2, 3, 4] 5), .addr (.v4 [10, 0, 0, 1] 80), .addr (.v4 [8, 8, 8, 8] 65535),
+      .atom (.nat 1), .str Old.sPublic, .atom (.nat 65535), .atom (.bytes [7, 7]), .atom (.nat 1)]
+    = some [.addr (.v4 [1, 2, 3, 4] 5), .addr (.v4 [10, 0, 0, 1] 80), .addr (.v4 [8, 8, 8, 8] 65535),
+      .tuple [.nat 1, .nat 0, .nat 1, .nat 0, .nat 0, .nat 0, .nat 0, .nat 1], .atom (.nat 65535), .atom (.bytes [7, 7])]
+    ∧ packList (.cons .ipv4 (.cons .ipv4 (.cons .ipv4 (.cons .bits (.cons (.struct [.uint 2]) (.cons .raw .nil))))))
+      (ValList.ofList [.addr (.v4 [1, 2, 3, 4] 5), .addr (.v4 [10, 0, 0, 1] 80), .addr (.v4 [8, 8, 8, 8] 65535),
+        .tuple [.nat 1, .nat 0, .nat 1, .nat 0, .nat 0, .nat 0, .nat 0, .nat 1], .atom (.nat 65535), .atom (.bytes [7, 7])])
+    = .ok [1, 2, 3, 4, 0, 5, 10, 0, 0, 1, 0, 80, 8, 8, 8, 8, 255, 255, 0xA1, 255, 255, 7, 7] := by decide
+
+/-- `variable_payload_attr_roundtrip`: a format list with `bits` in the middle; 10 attributes ↔ 3 pack-list entries -/
+example : Old.vpPack (.cons (.struct [.uint 2]) (.cons .bits (.cons (.varlen 2 1) .nil)))
+      [.atom (.nat 7), .atom (.nat 1), .atom (.nat 0), .atom (.nat 0), .atom (.nat 0), .atom (.nat 0), .atom (.nat 0),
+       .atom (.nat 1), .atom (.nat 1), .atom (.bytes [9])]
+    = some [.atom (.nat 7), .tuple [.nat 1, .nat 0, .nat 0, .nat 0, .nat 0, .nat 0, .nat 1, .nat 1], .atom (.bytes [9])] := by
+  decide
+
+/-- `similarity_response_fields_roundtrip` / `tb_overlap_layout`: a response with one preference and two overlap records -/
+example : (Old.simRespPack [.atom (.nat 3), .list (.cons (.atom (.bytes (List.replicate 20 1))) .nil),
+      .list (.cons (.tuple [.bytes (List.replicate 20 2), .nat 258]) (.cons (.tuple [.bytes (List.replicate 20 3), .nat 0]) .nil))]).isSome
+    = true := by decide
+
+/-- layouts: a signed −2 in 4 bytes, an IPv6 address, a two-element array of signed 64-bit integers -/
+example : pack (.struct [.sint 4]) (.atom (.int (-2))) = .ok [255, 255, 255, 254]
+    ∧ pack (.address true) (.addr (.v6 (List.replicate 16 9) 258)) = .ok ([3] ++ List.replicate 16 9 ++ [1, 2])
+    ∧ pack (.array 2 .q) (.arr [.int 1, .int (-1)]) = .ok ([0, 2] ++ [0, 0, 0, 0, 0, 0, 0, 1] ++ List.replicate 8 255) := by decide
 
 /-- canonical flag lists exist and non-canonical ones are excluded -/
 example : wf (.flags 2) (.nats [1, 4, 32768]) = true ∧ wf (.flags 2) (.nats [4, 1]) = false := by decide
